@@ -1,5 +1,6 @@
 /- `constraints.and_` (Model/Combinators.lean) SUCCEEDS without a random draw when the first pass ends in a common
-fixed point of all members and the first-pass states never return to an earlier value (generic in the vector type). -/
+fixed point of all members and the first-pass states never return to an earlier value; `constraints.or_` SUCCEEDS
+without a random draw when its first member does not raise at the input and is idempotent (generic in the vector type). -/
 import MysticVerif.Proofs.Combinators
 
 namespace MysticVerif.Comb
@@ -175,5 +176,58 @@ theorem and_succeeds [BEq X] [LawfulBEq X] (c : Nat → X → Option X) (rand : 
       { calls := n } (by omega) (by omega)
     simp only [List.replicate_zero, List.nil_append, Nat.add_zero] at ht
     exact ⟨t, l, st', ht, hd⟩
+
+/-! ## `or_` -/
+
+/-- a first pass of `or_` without success leaves `k` new entries on the history, the oldest of which is the output of
+the first member it applied -/
+theorem orFirst_none_hist [BEq X] (c : Nat → X → Option X) (x : X) :
+    ∀ (k i : Nat) (h : List X) (e : Bool) (calls : Nat) (h' : List X) (calls' : Nat),
+      orFirst c x k i h e calls = (none, h', calls') →
+      ∃ l, h' = l ++ h ∧ l.length = k ∧ (0 < k → l[k - 1]? = some (applyM (c i) x).1) := by
+  intro k
+  induction k with
+  | zero =>
+    intro i h e calls h' calls' hr
+    simp only [orFirst, Prod.mk.injEq, true_and] at hr
+    exact ⟨[], by simp [hr.1], rfl, fun h => by omega⟩
+  | succ k ih =>
+    intro i h e calls h' calls' hr
+    unfold orFirst at hr
+    simp only at hr
+    split at hr
+    · simp at hr
+    · obtain ⟨l, hl, hlen, _⟩ := ih _ _ _ _ _ _ hr
+      refine ⟨l ++ [(applyM (c i) x).1], by rw [hl]; simp, by simp [hlen], fun _ => ?_⟩
+      rw [List.getElem?_append_right (by omega)]
+      simp [hlen]
+
+/-- **`or_` succeeds without a random draw** whenever its first member runs without raising at the input and is
+idempotent there: either a member leaves the input unchanged (first pass), or the second application of the first
+member reproduces its first output. -/
+theorem or_succeeds [BEq X] [LawfulBEq X] (c : Nat → X → Option X) (pick : D → Nat) (n cap : Nat) (x : X)
+    (draws : List D) (hn : 0 < n) (hcap : n < cap) (y1 : X) (h0 : c 0 x = some y1) (hid : c 0 y1 = some y1) :
+    ∃ y t l st, or_ c pick n cap x draws = (.success y t l, st) ∧ st.draws = 0 := by
+  unfold or_
+  split
+  · exact ⟨_, _, _, _, rfl, rfl⟩
+  · rename_i h calls hf
+    obtain ⟨l, hl, hlen, hlast⟩ := orFirst_none_hist c x n 0 [x] false 0 h calls hf
+    obtain ⟨fuel, hfuel⟩ : ∃ f, cap - n = f + 1 := ⟨cap - n - 1, by omega⟩
+    rw [hfuel]
+    unfold orCycle
+    have hy1 : (applyM (c 0) x).1 = y1 := by unfold applyM; rw [h0]
+    have hsrc : h[n - 1]? = some y1 := by
+      rw [hl, List.getElem?_append_left (by omega), hlast hn, hy1]
+    cases h with
+    | nil => simp at hsrc
+    | cons top rest =>
+      simp only
+      rw [if_neg (by omega), hsrc]
+      simp only
+      have hye : applyM (c (n % n)) y1 = (y1, false) := by
+        rw [Nat.mod_self]; unfold applyM; rw [hid]
+      simp only [hye, beq_self_eq_true, Bool.not_false, Bool.and_self, if_true]
+      exact ⟨_, _, _, _, rfl, rfl⟩
 
 end MysticVerif.Comb
